@@ -40,9 +40,11 @@ def _sign(sk_hex, id_hex):
     return PrivateKey(bytes.fromhex(sk_hex)).sign_schnorr(bytes.fromhex(id_hex), None).hex()
 
 
-def make_event(author, kind=1, created_at=1_700_000_000, tags=None, content="", sk=None, pk=None):
-    """Returns the event as a plain dict (what a client would send)."""
-    tags = [list(t) for t in (tags or [])]
+def make_event(author, kind=1, created_at=1_700_000_000, tags=None, content="", sk=None, pk=None, raw_tags=False):
+    """Returns the event as a plain dict (what a client would send).  raw_tags: sign the tags member exactly as given (it need not
+    be a list of lists)."""
+    if not raw_tags:
+        tags = [list(t) for t in (tags or [])]
     pk = pk or PK[author]
     sk = sk or SK[author]
     eid = compute_id(pk, created_at, kind, tags, content)
